@@ -5,7 +5,6 @@
    mapped to Big_int_Z functions — see /usr/lib/ocaml/coq/theories/extraction/ExtrOcamlZBigInt.v). *)
 Require Coq.extraction.Extraction.
 Require Import ExtrOcamlBasic ExtrOcamlString ExtrOcamlZBigInt.
-From D377 Require Import Model.Concrete.
+From D377 Require Import Model.Concrete Model.OpTable.
 Extraction Language OCaml.
-Set Extraction Output Directory ".".
-Extraction "model.ml" run_op.
+Extraction "model.ml" run_op OpTable.run op_sigs.
